@@ -294,6 +294,8 @@ fn div_rem_core(mut a: BigUint, b: &[BigDigit]) -> (BigUint, BigUint) {
             let (q0, r) = div_wide(a0, a1, b0);
             (q0, r as DoubleBigDigit)
         } else {
+            #[cfg(num_bigint_verif)]
+            crate::__verif::hit(crate::__verif::DIV_TOP_EQUAL);
             debug_assert!(a0 == b0);
             // Avoid overflowing q0, we know the quotient fits in BigDigit.
             // [a1,a0] = b0 * (1<<BITS - 1) + (a0 + a1)
@@ -321,6 +323,8 @@ fn div_rem_core(mut a: BigUint, b: &[BigDigit]) -> (BigUint, BigUint) {
 
         let mut borrow = sub_mul_digit_same_len(&mut a.data[j..], b, q0);
         if borrow > a0 {
+            #[cfg(num_bigint_verif)]
+            crate::__verif::hit(crate::__verif::DIV_ADD_BACK);
             // q0 is too large. We need to add back one multiple of b.
             q0 -= 1;
             borrow -= __add2(&mut a.data[j..], b);
